@@ -656,7 +656,7 @@ MANIFEST = dict(
          'none, same or different user) with symbolic validator verdicts and symbolic timing of validator completion vs. arrival of the second '
          'request on a FIFO loop model - the connection is authenticated only as a user for whom a validator returned true, SUCCESS is sent and the '
          'application notified exactly once; publickey: under a free signature model access is granted iff the signature covers this session id, this '
-         'user, service, method and key, and a probe, empty or truncated signature never grants it; requests after success never change the user.',
+         'user, service, method and key, and a probe, empty or truncated signature never grants it; requests after success never change the user; an answer to a superseded or already answered keyboard-interactive challenge is never validated; a request superseded while reload_config / an asynchronous begin_auth was pending has no effect; certificate requests are granted by the CA trust source of the presented certificate and principals only (two successive requests, authorized_keys CA vs application-trusted CA).',
     note='Bounded schedules (2 requests, <= 3-6 loop steps between events, FIFO loop model instead of the real selector loop); application callbacks, '
          'key decoding and authorized_keys lookup are stubs; GSS/host-based methods and the client side (agent, key loading) are not driven. '
          'Trusted: CrossHair, z3, the loop model in vf/stubs.py, harness oracles.')
